@@ -211,7 +211,7 @@ fn cargo_build(indir: &Path, target: &Path) -> Result<(), String> {
 }
 
 /// ops lines for the child, with paths as `run_once` passes them for run number 0
-fn child_ops(indir: &Path, script: &[SOp]) -> String {
+fn child_ops(indir: &Path, script: &[SOp], spell: usize) -> String {
     let abs = |rel: &str| if rel.starts_with('/') { rel.to_string() } else { indir.join(rel).display().to_string() };
     let first_static = script.iter().position(|o| !matches!(o, SOp::T(_))).unwrap_or(script.len());
     let mut v: Vec<&SOp> = script[..first_static].iter().collect();
@@ -219,7 +219,7 @@ fn child_ops(indir: &Path, script: &[SOp]) -> String {
     v.extend(script[first_static..].iter().filter(|o| matches!(o, SOp::T(_))));
     let mut out = String::new();
     for (i, op) in v.iter().enumerate() {
-        let pass = |rel: &str| if i % 2 == 0 { abs(rel) } else { rel.to_string() };
+        let pass = |rel: &str| match (i + spell) % 3 { 0 => abs(rel), 1 => rel.to_string(), _ => format!("./{rel}") };
         let l = match op {
             SOp::T(d) => format!("T {}", hex(abs(d).as_bytes())),
             SOp::F(p) => format!("F {}", hex(pass(p).as_bytes())),
@@ -290,12 +290,12 @@ pub fn run(args: &crate::Args) {
             std::fs::write(indir.join("Cargo.toml"), format!("[package]\nname = \"rr{si}\"\nversion = \"0.1.0\"\nedition = \"2021\"\nbuild = \"build.rs\"\n\n[workspace]\n")).unwrap();
             std::fs::write(indir.join("src/main.rs"), "fn main() {}\n").unwrap();
             std::fs::write(indir.join("build.rs"), BUILD_RS.replace("@HARNESS@", &exe.display().to_string())).unwrap();
-            std::fs::write(indir.join(".verif/ops"), child_ops(&indir, &sc.script)).unwrap();
+            std::fs::write(indir.join(".verif/ops"), child_ops(&indir, &sc.script, si)).unwrap();
         }
         // ---- the run before any edit
         fresh(&outdir);
         let mut k = 0;
-        let res = run_once(&exe, &root, &outdir, &sc.script, k);
+        let res = run_once(&exe, &root, &outdir, &sc.script, k, si);
         writeln!(req, "{}", res.req).unwrap();
         writeln!(imp, "{}", res.answer).unwrap();
         stats.hit("runs");
@@ -330,7 +330,7 @@ pub fn run(args: &crate::Args) {
             stats.hit(&format!("edit.{}", format!("{e:?}").split('(').next().unwrap_or("?")));
             k += 1;
             fresh(&outdir);
-            let res = run_once(&exe, &root, &outdir, &sc.script, k - k % 2); // same relative / absolute choice as run 0
+            let res = run_once(&exe, &root, &outdir, &sc.script, k, si);
             writeln!(req, "{}", res.req).unwrap();
             writeln!(imp, "{}", res.answer).unwrap();
             stats.hit("runs");
